@@ -38,6 +38,7 @@ FINDINGS = {
     4: 'C19-profile-unusable',
     16: 'C19-interval-timer-leak',
     8: 'C19-autoprofile-leaves-profiler-enabled',      # repaired by a77d816
+    108: 'C19-program-enable-left-on',                  # -l: the program's own profile.enable() is never undone
 }
 BITNAMES = {1: 'sys.argv', 2: 'sys.path', 4: 'profile decorator', 8: 'profiler left enabled', 16: 'helper thread'}
 
@@ -67,7 +68,10 @@ def prog_text(outcome, tp, ta, explicit, imp=0):
     return '\n'.join(lines) + '\n'
 
 
-SPECIALS = ['rebind_path', 'rebind_argv', 'rebind_both', 'threads']
+SPECIALS = ['rebind_path', 'rebind_argv', 'rebind_both', 'threads', 'suspended_gen']
+# programs that drive the builtin `profile` object themselves (kernprof -l / -b put it there): left open, or balanced
+LEAVES = dict(leave_enable='LEnable', leave_bycount='LByCount', leave_with='LByCount', balanced_enable='LNone', balanced_with='LNone',
+              balanced_bycount='LNone')
 
 
 def special_name(kind, outcome, explicit=0):
@@ -83,6 +87,18 @@ def special_text(kind, outcome, explicit=0):
         lines += ["sys.path.append('/prog-added')", "sys.path = sys.path + ['/prog-rebound']"]
     if kind in ('rebind_argv', 'rebind_both'):
         lines += ["sys.argv.append('prog-added')", "sys.argv = sys.argv + ['prog-rebound']"]
+    if kind in LEAVES:
+        lines = ['import sys', 'def work(n):', '    return sum(range(n))']
+        lines += dict(leave_enable=['profile.enable()', 'work(5)'], leave_bycount=['profile.enable_by_count()', 'work(5)'],
+                      leave_with=['profile.__enter__()', 'work(5)'], balanced_enable=['profile.enable()', 'work(5)', 'profile.disable()'],
+                      balanced_with=['with profile:', '    work(5)'],
+                      balanced_bycount=['profile.enable_by_count()', 'work(5)', 'profile.disable_by_count()'])[kind]
+        lines += dict(ret=[], exit=['sys.exit(3)'], exc=["raise ValueError('boom')"])[outcome]
+        return '\n'.join(lines) + '\n'
+    if kind == 'suspended_gen':     # a profiled generator (and a coroutine-free twin) left suspended when the program ends:
+        # it is finalised later, when the program's namespace goes away (the next run replaces builtins.profile)
+        lines += ['@profile', 'def gen(n):', '    for i in range(n):', '        yield i',
+                  '_g = gen(5)', 'next(_g)', 'next(_g)', '_h = gen(3)', 'next(_h)', '_h.close()']
     if kind == 'threads':
         lines += ['import threading', '_in_b = threading.Event()', '_go = threading.Event()',
                   '@profile', 'def b_work():', '    _in_b.set()', '    _go.wait(10)', '    return 1',
@@ -118,7 +134,7 @@ def all_files():
     files = {'setupd/setup.py': 'SETUP_RAN = 1\n', 'helper_mod.py': 'def helper(n):\n    return sum(range(n))\n'}
     for uses in SETUP_USE_SETS:
         files[setup_file(uses)] = setup_text(uses)
-    for kind in SPECIALS:
+    for kind in SPECIALS + sorted(LEAVES):
         for outcome in ('ret', 'exit', 'exc'):
             for ex in (0, 1):
                 files[special_name(kind, outcome, ex) + '.py'] = special_text(kind, outcome, ex)
@@ -182,7 +198,8 @@ def make_run(l, b, m, setup, interval, where, extras, sargs, outcome, tp, ta, ex
     return dict(args=args, l=l, b=b, m=m, setup='setupd' if setup else None, interval=interval or 0,
                 new_argv=[script.replace('{TMP}', '/T')] + sargs, script_dir=sdir,
                 outcome=outcome, tp=bool(tp), ta=bool(ta), explicit=bool(explicit), imp=int(imp), sel=sel, regs=regs,
-                setup_uses=list(setup_uses or []), plain=not (l or b), special=special, rp=rp, ra=ra)
+                setup_uses=list(setup_uses or []), plain=not (l or b), special=special, rp=rp, ra=ra,
+                leave=LEAVES.get(special, 'LNone'))
 
 
 EXTRAS = [[], ['-v'], ['-z'], ['-v', '-z', '-u', '1e-3'], ['-o', 'out.dat'], ['-v', '-r']]
@@ -229,12 +246,35 @@ def gen_cases(tier, rnd):
     # 1d. programs that rebind sys.path / sys.argv, and threaded programs with overlapping profiled calls (-l only:
     #     ContextualProfile's count is shared between threads, C05), every mode x outcome x script / module
     for special in SPECIALS:
-        for l, b in (((True, False), (False, True), (False, False)) if special != 'threads' else ((True, False), (True, True))):
+        for l, b in (((True, False), (False, True), (False, False)) if special not in ('threads', 'suspended_gen') else ((True, False), (True, True))):
             for outcome in ('ret', 'exit', 'exc'):
                 for m in (False, True):
                     r = make_run(l, b, m, rnd.random() < 0.3, None, rnd.choice(['rel', 'sub']), [], ['a'], outcome, 0, 0,
                                  int((l or b) and rnd.random() < 0.3), special=special)
                     cases.append(dict(kind='special-program', init=init0, runs=[r]))
+    # 1d'. a suspended profiled generator is finalised AFTER its run: look at the run that follows
+    for l, b in ((True, False), (True, True), (False, True)):
+        for outcome in ('ret', 'exit', 'exc'):
+            for l2, b2 in ((True, False), (False, True), (False, False)):
+                r1 = make_run(l, b, False, False, None, 'rel', [], [], outcome, 0, 0, 0, special='suspended_gen')
+                r2 = make_run(l2, b2, False, False, None, 'sub', [], [], 'ret', 0, 0, int(l2 or b2))
+                cases.append(dict(kind='special-program', init=init0, runs=[r1, r2]))
+    # 1e. programs that switch the builtin profile on themselves (enable / enable_by_count / with), left open or balanced,
+    #     in every mode that has the builtin, every outcome, script / module - alone and followed by a second run
+    for special in sorted(LEAVES):
+        for l, b in ((True, False), (False, True), (True, True)):
+            for outcome in ('ret', 'exit', 'exc'):
+                m = rnd.random() < 0.3
+                r = make_run(l, b, m, False, None, 'rel', [], ['a'], outcome, 0, 0, 0, special=special)
+                cases.append(dict(kind='program-drives-profiler', init=init0, runs=[r]))
+                if outcome != 'exit' or thorough:
+                    # (after a cProfile-flavour run whose program left enable_by_count() open, the profiler object left in
+                    #  builtins keeps a non-zero count, so a later plain-mode program decorating with that stale object does
+                    #  NOT try to enable it; the model does not track the count of a stale builtin: keep the builtin fresh)
+                    stale_open = LEAVES[special] == 'LByCount' and not l
+                    r2 = make_run(rnd.random() < 0.5 or stale_open, rnd.random() < 0.5, False, False, None, 'sub', [], [], 'ret', 1, 0, 0)
+                    cases.append(dict(kind='program-drives-profiler', init=init0,
+                                      runs=[make_run(l, b, m, False, None, 'rel', [], ['a'], outcome, 0, 0, 0, special=special), r2]))
     for _ in range(200 if thorough else 12):     # ... and inside sequences
         rs = [random_run(rnd, allow_p=False) for _ in range(rnd.choice([1, 2]))]
         l = rnd.random() < 0.7
@@ -407,6 +447,9 @@ def current_path_prediction(case, o):
 def classify(case, o, bit):
     """the finding id iff the failing clause matches that finding's signature exactly"""
     final, last = o['seen'][-1], case['runs'][-1]
+    if bit == 8 and last.get('special') == 'leave_enable' and last['l'] \
+            and not o['before']['tracing'] and final['tracing'] and not final['threads']:
+        return FINDINGS[108]
     if last.get('special'):
         return None         # none of the repaired defects involved such programs
     if bit == 1:
@@ -472,13 +515,13 @@ def q_gp(init):
 
 
 def q_run(r):
-    return '(mkOpts %s %s %s %s %s %s %s %s "/T") (mkProg %s %s %s %s %s %s %s [])' % (
+    return '(mkOpts %s %s %s %s %s %s %s %s "/T") (mkProg %s %s %s %s %s %s %s %s [])' % (
         core.coq_bool(r['l']), core.coq_bool(r['b']), core.coq_bool(r['m']),
         core.coq_opt(core.coq_str(r['setup']) if r['setup'] else None),
         core.coq_list([COQ_UOP[u] for u in r.get('setup_uses') or []]), core.coq_z(r['interval']),
         q_strs(r['new_argv']), core.coq_str(r['script_dir']),
         COQ_OUTCOME[r['outcome']], core.coq_bool(r['tp']), core.coq_bool(r['ta']), core.coq_bool(r.get('rp', False)), core.coq_bool(r.get('ra', False)),
-        core.coq_bool(not r['explicit']), core.coq_z(r.get('regs', 0)))
+        core.coq_bool(not r['explicit']), r.get('leave', 'LNone'), core.coq_z(r.get('regs', 0)))
     # p_sched = []: in these runs the program ends long before the first expiry (N >= 2 s); the
     # interleavings of stop() with a dump are exercised on the RepeatedTimer directly (RT_SCHEDULES)
 
@@ -674,7 +717,7 @@ def run(tier, seed):
                  '(-l, -b, -m, -s, -i N) x 5 program outcomes (return, sys.exit, KeyboardInterrupt, raise at top level, raise inside a '
                  'profiled function) as single runs, all ordered pairs of 6 core behaviours, plus seeded random runs / sequences of 2-3 runs '
                  'with irrelevant options (-v -z -r -u -o), all kinds of -p selections with and without matching imports (and --prof-imports), program edits of sys.path / sys.argv, script given relative / in a '
-                 'subdirectory / absolute, programs that rebind sys.path / sys.argv, threaded programs whose profiled calls overlap across threads, decided and undecided initial decorator; plus the real kernprof.RepeatedTimer driven through '
+                 'subdirectory / absolute, programs that drive the builtin profile themselves (enable / enable_by_count / with, left open or balanced), programs that rebind sys.path / sys.argv, threaded programs whose profiled calls overlap across threads, decided and undecided initial decorator; plus the real kernprof.RepeatedTimer driven through '
                  'deterministic schedules of expiry / dump completion / stop() (a blocking dump function places stop() inside a dump)',
             exhaustive=True, case_kinds=kinds, runs_per_case=lens, run_stats=stats, outcomes=outcomes,
             clause_failure_bits_histogram={str(k): v for k, v in sorted(bit_hist.items())},
